@@ -112,6 +112,9 @@ impl DigitString {
 
     /// push the given digit string at the right, appending it to the digits already in the buffer.
     pub fn push(&mut self, digits: &[u8]) -> Result<(), Error> {
+        if self.frozen {
+            return Err(Error::Frozen);
+        }
         self.buffer.extend_from_slice(digits);
         Ok(())
     }
